@@ -80,6 +80,9 @@ pub mod vx_facts {
     /// a Vec's length fits in usize
     pub broadcast axiom fn ax_vec_len<T>(v: Vec<T>)
         ensures #[trigger] v@.len() <= usize::MAX;
+    /// a slice's length fits in usize
+    pub broadcast axiom fn ax_slice_len<T>(s: &[T])
+        ensures #[trigger] s@.len() <= usize::MAX;
     }
 }
 
